@@ -92,6 +92,70 @@ func (c *Ctx) strSegFact(r Term, lo, hi Term, rhs func(t Term) Term) Term {
 	return Term{fmt.Sprintf("(forall ((%s Int)) (! %s :pattern (%s)))", t.S, body.S, lhs.S), SBool}
 }
 
+// strSegFactP: for lo <= t < hi, p(t) - a property of the bytes of one string, trigger strbyte(code, t)
+func (c *Ctx) strSegFactP(code Term, lo, hi Term, p func(t Term) Term) Term {
+	c.nfresh++
+	t := Term{fmt.Sprintf("st_%d", c.nfresh), SInt}
+	body := Implies(And(Le(lo, t), Lt(t, hi)), p(t))
+	return Term{fmt.Sprintf("(forall ((%s Int)) (! %s :pattern (%s)))", t.S, body.S, c.strByte(code, t).S), SBool}
+}
+
+// strEqConst: the string with this code equals the constant - length and bytes (exact; the codes themselves are compared
+// only between two non-constant strings)
+func (c *Ctx) strEqConst(code Term, lit string) Term {
+	cs := []Term{Eq(c.strLen(code), IntLit(int64(len(lit))))}
+	for k := 0; k < len(lit); k++ {
+		cs = append(cs, Eq(c.strByte(code, IntLit(int64(k))), IntLit(int64(lit[k]))))
+	}
+	return And(cs...)
+}
+
+// strHasPrefixConst: strings.HasPrefix(code, lit) for a constant prefix
+func (c *Ctx) strHasPrefixConst(code Term, lit string) Term {
+	cs := []Term{Ge(c.strLen(code), IntLit(int64(len(lit))))}
+	for k := 0; k < len(lit); k++ {
+		cs = append(cs, Eq(c.strByte(code, IntLit(int64(k))), IntLit(int64(lit[k]))))
+	}
+	return And(cs...)
+}
+
+// numeralTheory declares the text <-> number vocabulary and its axioms (once per query context):
+//
+//	uf_isnum(s) == 1     s is a base-10 numeral as strconv.ParseInt(s, 10, n) and (big.Int).SetString(s, 10) read it:
+//	                     an optional sign, then one or more ASCII digits
+//	uf_numval(s)         its value
+//	uf_utext(s, z, n)    s is z characters '0' followed by the decimal text of n >= 0   (uf_dchar(n, k), nd10(n) of them)
+//	uf_stext(s, g, n)    s is the sign character g ('+' or '-') followed by the decimal text of n >= 0
+//
+// Assumed (decimal notation; the parsers of strconv and math/big read what their formatters write):
+// the two introduction rules (the bytes say so) and the two elimination rules (such a text is a numeral with that value).
+func (c *Ctx) numeralTheory() {
+	if c.declared["numeral-theory"] {
+		return
+	}
+	c.declared["numeral-theory"] = true
+	for _, d := range []string{"uf_isnum_1 (Int) Int", "uf_numval_1 (Int) Int", "uf_utext_3 (Int Int Int) Int", "uf_stext_3 (Int Int Int) Int", "uf_dchar_2 (Int Int) Int", "strbyte (Int Int) Int", "strlen (Int) Int"} {
+		name := strings.SplitN(d, " ", 2)[0]
+		if !c.declared[name] {
+			c.declared[name] = true
+			c.decls = append(c.decls, "(declare-fun "+d+")")
+		}
+	}
+	ax := []string{
+		// introduction
+		"(forall ((bv!s Int) (bv!z Int) (bv!n Int)) (! (=> (and (>= bv!n 0) (>= bv!z 0) (= (strlen bv!s) (+ bv!z (nd10 bv!n))) (forall ((bv!t Int)) (=> (and (<= 0 bv!t) (< bv!t bv!z)) (= (strbyte bv!s bv!t) 48))) (forall ((bv!t Int)) (=> (and (<= 0 bv!t) (< bv!t (nd10 bv!n))) (= (strbyte bv!s (+ bv!z bv!t)) (uf_dchar_2 bv!n bv!t))))) (= (uf_utext_3 bv!s bv!z bv!n) 1)) :pattern ((uf_utext_3 bv!s bv!z bv!n))))",
+		"(forall ((bv!s Int) (bv!g Int) (bv!n Int)) (! (=> (and (>= bv!n 0) (or (= bv!g 43) (= bv!g 45)) (= (strlen bv!s) (+ 1 (nd10 bv!n))) (= (strbyte bv!s 0) bv!g) (forall ((bv!t Int)) (=> (and (<= 0 bv!t) (< bv!t (nd10 bv!n))) (= (strbyte bv!s (+ 1 bv!t)) (uf_dchar_2 bv!n bv!t))))) (= (uf_stext_3 bv!s bv!g bv!n) 1)) :pattern ((uf_stext_3 bv!s bv!g bv!n))))",
+		// elimination
+		"(forall ((bv!s Int) (bv!z Int) (bv!n Int)) (! (=> (= (uf_utext_3 bv!s bv!z bv!n) 1) (and (= (uf_isnum_1 bv!s) 1) (= (uf_numval_1 bv!s) bv!n))) :pattern ((uf_utext_3 bv!s bv!z bv!n))))",
+		"(forall ((bv!s Int) (bv!g Int) (bv!n Int)) (! (=> (= (uf_stext_3 bv!s bv!g bv!n) 1) (and (= (uf_isnum_1 bv!s) 1) (= (uf_numval_1 bv!s) (ite (= bv!g 45) (- bv!n) bv!n)))) :pattern ((uf_stext_3 bv!s bv!g bv!n))))",
+		// the characters of a decimal text are digits
+		"(forall ((bv!n Int) (bv!k Int)) (! (=> (and (>= bv!n 0) (<= 0 bv!k) (< bv!k (nd10 bv!n))) (and (<= 48 (uf_dchar_2 bv!n bv!k)) (<= (uf_dchar_2 bv!n bv!k) 57))) :pattern ((uf_dchar_2 bv!n bv!k))))",
+	}
+	for _, a := range ax {
+		c.assume(Term{a, SBool})
+	}
+}
+
 func (c *Ctx) freshArray(hint string, elem Sort) Term {
 	c.nfresh++
 	name := fmt.Sprintf("%s!%d", sanitize(hint), c.nfresh)
